@@ -205,12 +205,23 @@ Fixpoint index_last (x : string) (l : list string) (i : nat) (acc : option nat) 
   match l with [] => acc | y :: t => index_last x t (S i) (if String.eqb x y then Some i else acc) end.
 Definition rstate := (scope * list (string * string) * list (string * string))%type.   (* scope, inner_renames, inner_node_renames *)
 
+(* reserve_prefixed of _Inline.to_onnx: the prefixed name, enumerated until it is neither reserved nor the name of a Var (the
+   enumerated name of one inner name may be the plain name of another one).  Every round produces a new name (the counter of
+   [base] grows), so |taken names| + 1 rounds always suffice; the fuel is never exhausted. *)
+Definition name_taken (sc : scope) (r : string) : bool :=
+  (mem String.eqb r (reserved sc) || mem String.eqb r (map snd (vname sc)))%bool.
+Fixpoint reserve_free (fuel : nat) (base r : string) (sc : scope) : res (string * scope) :=
+  if name_taken sc r then
+    match fuel with
+    | O => raise EFuel
+    | S f => let '(r', vc') := enum (vcnt sc) base in reserve_free f base r' (with_vcnt sc vc')
+    end
+  else ret (r, with_reserved sc (reserved sc ++ [r])%list).
 Definition reserve_prefixed (nm : string) (sc : scope) (name : string) : res (string * scope) :=
   if String.eqb name "" then ret ("", sc) else
-  let '(r, vc) := maybe_enum (vcnt sc) (nm ++ "__" ++ name) in
-  let sc := with_vcnt sc vc in
-  if (mem String.eqb r (reserved sc) || mem String.eqb r (map snd (vname sc)))%bool then raise EScope
-  else ret (r, with_reserved sc (reserved sc ++ [r])%list).
+  let base := (nm ++ "__" ++ name)%string in
+  let '(r, vc) := maybe_enum (vcnt sc) base in
+  reserve_free (S (List.length (reserved sc) + List.length (vname sc))) base r (with_vcnt sc vc).
 
 Section Inline.
 Variable nm : string.                    (* scope.node[self] *)
